@@ -40,3 +40,7 @@ func verif_lemma_chunkrec_roundtrip(buf []byte, c CompressedChunk) {
 	verif_assert(len(rec.payload) == len(c.FullCompressedChunk))
 	verif_assert(verif_forall(0, len(rec.payload), func(i int) bool { return rec.payload[i] == c.FullCompressedChunk[i] }))
 }
+
+func verif_lemma_c10_suffix_any_index(ti onHeapTableIndex, idx uint32, h *hash.Hash) {
+	_, _ = ti.entrySuffixMatches(idx, h)
+}
